@@ -50,6 +50,9 @@ class ExcClass(PyObj):
     def __init__(self, name): self.name = name
 class LambdaV(PyObj):
     def __init__(self, node, env): self.node, self.env = node, env
+class PyMethod(PyObj):
+    """a method modelled by a python function in the sidecar (e.g. a ghost output buffer)"""
+    def __init__(self, recv, fn): self.recv, self.fn = recv, fn
 class ExtMethod(PyObj):
     def __init__(self, recv, key): self.recv, self.key = recv, key
 class FlagNS(PyObj):
@@ -119,6 +122,7 @@ class World:
         self.class_src = {}    # ref class name -> (rel, classname)
         self.trusted = []      # free-text trusted-base entries
         self.flag_src = {}          # flag enum name -> (rel, class, {member: int})
+        self.py_methods = {}        # (ref class, method) -> python model function(ex, recv, args, kwargs, node)
         self.ufunc_facts = {}
         self.builtin_alias = {}     # name in repo code -> builtin model it behaves like (e.g. OrderedSet -> set), listed as assumption
         self.hierarchies = {}       # ref class name -> rel of the module whose class hierarchy decides isinstance on it
@@ -463,7 +467,7 @@ class Exec:
 
     # ---------------- expressions
     def eval(self, node):
-        if self.w.opaque_exprs and isinstance(node, (ast.Attribute, ast.Name)):
+        if self.w.opaque_exprs and isinstance(node, (ast.Attribute, ast.Name, ast.Subscript)):
             txt = ast.unparse(node)
             if txt in self.w.opaque_exprs:
                 ty = self.w.ty(self.w.opaque_exprs[txt])
@@ -480,7 +484,7 @@ class Exec:
         if isinstance(v, int): return vint(v)
         if isinstance(v, str): return vstr(v)
         if isinstance(v, float): return V(TFloat, z3.RealVal(repr(v)))
-        if isinstance(v, bytes): return V(TBytes, z3.StringVal(v.decode('latin-1')))
+        if isinstance(v, bytes): return V(TBytes, zs(v.decode('latin-1')))
         if v is Ellipsis: return NONE
         raise Unsupported('constant %r' % (v,))
 
@@ -547,6 +551,11 @@ class Exec:
                     self.vf.note_assumption('f-string operand outside the subset treated as an arbitrary string (message text only)')
                     parts.append(V(TStr, fresh('fmt', z3.StringSort()))); continue
                 if p.format_spec is not None or p.conversion not in (-1, 115):
+                    cv = self.const_py(v)
+                    if cv is not None and (p.format_spec is None or all(isinstance(x, ast.Constant) for x in p.format_spec.values)):
+                        spec = ''.join(x.value for x in p.format_spec.values) if p.format_spec is not None else ''
+                        conv = {-1: '', 115: '!s', 114: '!r', 97: '!a'}[p.conversion]
+                        parts.append(vstr(('{0' + conv + ':' + spec + '}').format(cv[0]))); continue
                     v = V(TStr, fresh('fmt', z3.StringSort()))   # opaque formatted text
                     self.vf.note_assumption('f-string with format spec/conversion treated as an arbitrary string')
                 else: v = self.to_str(v)
@@ -556,13 +565,25 @@ class Exec:
         for p in parts[1:]: t = z3.Concat(t, p.t)
         return V(TStr, t)
 
+    def const_py(self, v):
+        """(python value,) if v is a compile-time constant int / str / bool, else None"""
+        if not isinstance(v, V): return None
+        t = z3.simplify(v.t) if v.ty in (TInt, TStr, TBool) else None
+        if t is None: return None
+        if v.ty is TInt and z3.is_int_value(t): return (t.as_long(),)
+        if v.ty is TStr and z3.is_string_value(t):
+            from .strlib import _unescape_z3
+            return (_unescape_z3(t.as_string()),)
+        if v.ty is TBool and (z3.is_true(t) or z3.is_false(t)): return (z3.is_true(t),)
+        return None
+
     def to_str(self, v):
         if v.ty is TStr: return v
         if v.ty is TInt: return V(TStr, z3.IntToStr(v.t)) if False else self.int_to_str(v)
         if isinstance(v.ty, TEnum) and all(isinstance(x, str) for x in v.ty.values):
-            r = z3.StringVal(v.ty.values[-1])
+            r = zs(v.ty.values[-1])
             for m, val in list(zip(v.ty.members, v.ty.values))[-2::-1]:
-                r = z3.If(v.t == v.ty.const(m), z3.StringVal(val), r)
+                r = z3.If(v.t == v.ty.const(m), zs(val), r)
             return V(TStr, r)
         self.vf.note_assumption('str() of %r treated as an arbitrary string' % v.ty)
         return V(TStr, fresh('str', z3.StringSort()))
@@ -574,7 +595,7 @@ class Exec:
         self.vf.note_assumption('library lemma: str(n) of a non-negative int is a non-empty ASCII digit string whose int() is n')
         self.assume(z3.Implies(t >= 0, z3.And(z3.InRe(z3.IntToStr(t), z3.Plus(z3.Range('0', '9'))), z3.StrToInt(z3.IntToStr(t)) == t)))
         if not self.feasible(t < 0): return V(TStr, z3.IntToStr(t))
-        return V(TStr, z3.If(t >= 0, z3.IntToStr(t), z3.Concat(z3.StringVal('-'), z3.IntToStr(-t))))
+        return V(TStr, z3.If(t >= 0, z3.IntToStr(t), z3.Concat(zs('-'), z3.IntToStr(-t))))
 
     def val(self, x):
         """require a symbolic value"""
@@ -676,8 +697,12 @@ class Exec:
         if z3.is_false(c): return self.eval(n.orelse)
         if self.spec:
             return vite(c, self.val(self.eval(n.body)), self.val(self.eval(n.orelse)))
-        a = self.try_pure(lambda: self.val(self.eval(n.body)), guard=c)
-        b = self.try_pure(lambda: self.val(self.eval(n.orelse)), guard=z3.Not(c)) if a is not None else None
+        def pv(nd):
+            x = self.eval(nd)
+            if isinstance(x, PyObj): raise NeedFork()      # python-level objects (regexes, classes) cannot be merged: fork
+            return self.val(x)
+        a = self.try_pure(lambda: pv(n.body), guard=c)
+        b = self.try_pure(lambda: pv(n.orelse), guard=z3.Not(c)) if a is not None else None
         if a is not None and b is not None: return vite(c, a, b)
         if self.branch(c): return self.eval(n.body)
         return self.eval(n.orelse)
@@ -764,7 +789,13 @@ class Exec:
         if isinstance(ty, TSeq):
             i = fresh('qi', z3.IntSort())
             return z3.Exists([i], z3.And(i >= 0, i < c.t[0], veq(seq_get(c, i), x)))
-        if ty is TStr and x.ty is TStr: return z3.Contains(c.t, x.t)
+        if ty is TStr and x.ty is TStr:
+            xs = z3.simplify(x.t)
+            if z3.is_string_value(xs) and not z3.is_string_value(z3.simplify(c.t)):
+                # constant needle: the regular-language form  c in .* x .*  (decided by the regex solver together with other memberships on c)
+                any_ = z3.Star(z3.AllChar(z3.ReSort(z3.StringSort())))
+                return z3.InRe(c.t, z3.Concat(any_, z3.Re(xs), any_))
+            return z3.Contains(c.t, x.t)
         if isinstance(ty, TOpt):
             raise Unsupported('`in` on optional container')
         raise Unsupported('`in` on %r' % ty)
@@ -921,7 +952,7 @@ class Exec:
             raise Unsupported('type attribute')
         from . import strlib
         if isinstance(obj, strlib.RegexV):
-            if attr in ('match', 'fullmatch', 'search'): return BoundBuiltin(obj, 're.' + attr)
+            if attr in ('match', 'fullmatch', 'search', 'sub'): return BoundBuiltin(obj, 're.' + attr)
             raise Unsupported('regex attribute %s' % attr)
         if not isinstance(obj, V): raise Unsupported('attribute %s on %s' % (attr, type(obj).__name__))
         ty = obj.ty
@@ -942,12 +973,14 @@ class Exec:
                 if ty.intvalued or all(isinstance(x, int) for x in ty.values): return vint(ty.value_term(obj.t))
                 return self.to_str(obj)
             if attr == 'name':
-                r = z3.StringVal(ty.members[-1])
-                for m in ty.members[-2::-1]: r = z3.If(obj.t == ty.const(m), z3.StringVal(m), r)
+                r = zs(ty.members[-1])
+                for m in ty.members[-2::-1]: r = z3.If(obj.t == ty.const(m), zs(m), r)
                 return V(TStr, r)
         if isinstance(ty, TRef):
             fields = self.w.classes.get(ty.cls, {})
             if attr in fields: return self.heap_read(obj, attr, self.w.ty(fields[attr]))
+        if isinstance(ty, TRef) and (ty.cls, attr) in self.w.py_methods:
+            return PyMethod(obj, self.w.py_methods[(ty.cls, attr)])
         if isinstance(ty, TRef) and (ty.cls + '.' + attr) in self.w.ext_methods:
             return ExtMethod(obj, ty.cls + '.' + attr)
         if isinstance(ty, (TRec, TEnum, TRef)):
@@ -1104,9 +1137,9 @@ class Exec:
 
     def reverse_seq(self, obj):
         if obj.ty is TStr:
-            r = z3.simplify(obj.t)
-            if z3.is_string_value(r): return vstr(r.as_string()[::-1])
-            raise Unsupported('reverse of symbolic string')
+            c = self.const_py(obj)
+            if c is not None: return vstr(c[0][::-1])
+            return self.vf.str_reverse(self, obj)
         if isinstance(obj.ty, TTuple): return V(TTuple(obj.ty.items[::-1]), obj.t[::-1])
         if isinstance(obj.ty, TSeq):
             i = fresh('ri', z3.IntSort())
@@ -1191,6 +1224,7 @@ class Exec:
     def call(self, f, args, kwargs, node):
         if isinstance(f, BuiltinRef): return call_builtin(self, f.name, args, kwargs, node)
         if isinstance(f, SpecFn): return call_spec(self, f.name, args, kwargs, node)
+        if isinstance(f, PyMethod): return f.fn(self, f.recv, args, kwargs, node)
         if isinstance(f, ExtMethod): return self.ext_call(f, args, kwargs, node)
         if any(isinstance(a, tuple) for a in args):
             if isinstance(f, (FuncRef, BoundMethod)): return self.star_call(f, args, kwargs, node)
@@ -1279,11 +1313,11 @@ class Exec:
                 r = z3.If(t == val, ty.const(m), r)
             return V(ty, r)
         if v.ty is TStr:
-            ok = z3.Or(*[v.t == z3.StringVal(val) for val in ty.values])
+            ok = z3.Or(*[v.t == zs(val) for val in ty.values])
             if not self.spec and self.branch(z3.Not(ok), exceptional=True): self.raise_exc('ValueError')
             r = ty.const(ty.members[-1])
             for m, val in list(zip(ty.members, ty.values))[-2::-1]:
-                r = z3.If(v.t == z3.StringVal(val), ty.const(m), r)
+                r = z3.If(v.t == zs(val), ty.const(m), r)
             return V(ty, r)
         raise Unsupported('enum construction from %r' % v.ty)
 
@@ -1410,6 +1444,8 @@ class Exec:
         if c.ghost:
             spec = (me.call_ghost if me else {}).get((fr.qual, ordinal)) or (me.call_ghost if me else {}).get(fr.qual) or {}
             for g, gty in c.ghost.items():
+                if g in c.hints.get('ghost_out', ()):
+                    ghosts[g] = default_value(w.ty(gty)); continue        # output witness: bound after the call
                 if g in spec:
                     tree = self.vf.parse_spec(spec[g])
                     self.spec += 1
@@ -1909,6 +1945,7 @@ class Exec:
                 return
             it = self.iter_of(itv)
             ln = z3.simplify(it.ln)
+            if z3.is_int_value(ln): bound = max(bound, ln.as_long() + 1)      # constant length: unrolled exactly
             k = 0
             while True:
                 if not self.branch(z3.IntVal(k) < it.ln): break
